@@ -71,6 +71,8 @@ def _chart_ok(root):
         return False
     for e in root.iter():
         tag = e.tag.replace(ns, "")
+        if tag in ("history", "initial") and not [c for c in e if c.tag.replace(ns, "") == "transition" and c.get("target")]:
+            return False
         refs = []
         if tag == "transition" and e.get("target"):
             refs += e.get("target").split()
